@@ -87,6 +87,20 @@ macro_rules! harness {
             let _ = $body(&inp);
         }
     };
+    ($name:ident, unwind = $u:expr, stubs = indicator3, $body:path) => {
+        #[cfg(kani)]
+        #[kani::proof]
+        #[kani::unwind($u)]
+        #[kani::stub(std::vec::Vec::reserve, $crate::stubs::vec_reserve)]
+        #[kani::stub(std::vec::Vec::push, $crate::stubs::vec_push)]
+        #[kani::stub(std::vec::Vec::with_capacity, $crate::stubs::vec_with_capacity)]
+        #[kani::stub(arimaa_engine_step::zobrist::piece_value, $crate::stubs::piece_value_indicator)]
+        #[kani::stub(arimaa_engine_step::action::map_bit_board_to_squares, $crate::stubs::mbts_upto3)]
+        pub fn $name() {
+            let inp: $crate::scenario::Inp = kani::any();
+            let _ = $body(&inp);
+        }
+    };
     ($name:ident, unwind = $u:expr, stubs = absmove, $body:path) => {
         #[cfg(kani)]
         #[kani::proof]
